@@ -328,6 +328,11 @@ def run(ctx, idx):
     dec = [n for n in ast.walk(rs.node) if isinstance(n, ast.Call) and isinstance(n.func, ast.Attribute) and n.func.attr == "decode" and n.args and isinstance(n.args[0], ast.Constant) and n.args[0].value == "unicode_escape"]
     if dec:
         enc = dec[0].func.value
+        if isinstance(enc, ast.Name):
+            # the encoded bytes held in a local first
+            defs_ = [x.value for x in ast.walk(rs.node) if isinstance(x, ast.Assign) and len(x.targets) == 1 and isinstance(x.targets[0], ast.Name) and x.targets[0].id == enc.id]
+            if len(defs_) == 1:
+                enc = defs_[0]
         if isinstance(enc, ast.Call) and isinstance(enc.func, ast.Attribute) and enc.func.attr == "encode":
             eargs = [a.value for a in enc.args if isinstance(a, ast.Constant)]
             if eargs[:1] in (["latin-1"], ["latin1"], ["iso-8859-1"]) and "backslashreplace" in eargs:
